@@ -6,7 +6,7 @@
   * `corevm_endscope_core_is_op` : the hierarchy part of the branch (scope look-up, `del flow_state.scopes[name]`, "abort all
     listening flows of the scope", "release all actions of the scope") IS `Lifetime.endScope`;
   * `corevm_endscope_is_op` : the whole branch, the head bookkeeping after it (`scope_uids.remove`, `head.position += 1`) being
-    invisible to `absVM`; hypothesis `NameRO` : the name oracle of the next position reads the state only.
+    invisible to `absVM`; hypothesis `NameRO` : the name oracle of the next position leaves index, instance table and action table alone.
 -/
 import NemoVerif.Lemmas.LifetimeCoreVM4
 namespace NemoVerif.Lifetime.Refine
@@ -313,8 +313,10 @@ theorem head_loop (f : FUid) (name : String) : ∀ (l : List Head) (vm vm' : VM)
     obtain ⟨a1, a2, a3⟩ := head_loop f name l vm1 vm' h
     exact ⟨a1.trans e1, a2.trans e2, a3.trans e3⟩
 
-/-- the name oracle for position `p` of `f` only reads the state (it evaluates the event name of a `match` element) -/
-def NameRO (f : FUid) (p : Nat) : Prop := ∀ hst, ReadOnly (nameFor f p hst)
+/-- the name oracle for position `p` of `f` (it evaluates the event name of a `match` element) touches neither the index, nor the
+    instance table, nor the action table (it may burn uids: `Action(...)` / `create_flow_instance(...)` temporaries) -/
+def NameRO (f : FUid) (p : Nat) : Prop :=
+  ∀ hst vm a vm', nameFor f p hst vm = .ok a vm' → vm'.ixs = vm.ixs ∧ vm'.r.fx = vm.r.fx ∧ vm'.r.actions = vm.r.actions
 
 theorem attemptPy_cases {α : Type} (x : M α) (vm : VM) :
     (∃ a vm1, x vm = .ok a vm1 ∧ attemptPy x vm = .ok (.ok a) vm1) ∨
@@ -333,7 +335,7 @@ theorem getHead?_run (k : Key) (vm : VM) : getHead? k vm = .ok ((findInst vm.ixs
 
 /-- `head.position = p` changes neither the non-index part nor what `absVM` reads of the index -/
 theorem setHeadPos_frame (k : Key) (p : Nat) (vm vm' : VM) (hro : NameRO k.1 p) (h : setHeadPos k p vm = .ok () vm') :
-    vm'.r = vm.r ∧ (∀ u, (findInst vm'.ixs.ix u).map proj = (findInst vm.ixs.ix u).map proj) ∧
+    (vm'.r.fx = vm.r.fx ∧ vm'.r.actions = vm.r.actions) ∧ (∀ u, (findInst vm'.ixs.ix u).map proj = (findInst vm.ixs.ix u).map proj) ∧
       vm'.ixs.ix.insts.map (·.uid) = vm.ixs.ix.insts.map (·.uid) := by
   unfold setHeadPos at h
   simp only [bind, EStateM.bind] at h
@@ -347,18 +349,27 @@ theorem setHeadPos_frame (k : Key) (p : Nat) (vm vm' : VM) (hro : NameRO k.1 p) 
     by_cases hp : hd.pos = p
     · simp only [hp, if_true] at h
       cases h
-      exact ⟨rfl, fun _ => rfl, rfl⟩
+      exact ⟨⟨rfl, rfl⟩, fun _ => rfl, rfl⟩
     · simp only [hp, if_false] at h
       simp only [EStateM.bind] at h
       rcases attemptPy_cases (nameFor k.1 p hd.status) vm with ⟨nm, vm1, hx, ha⟩ | ⟨cm, vm1, ha⟩ | ⟨e, vm1, ha⟩
-      · have := hro hd.status vm nm vm1 hx
-        subst this
+      · obtain ⟨e1, e2, e3⟩ := hro hd.status vm nm vm1 hx
         rw [ha] at h
         simp only at h
         by_cases hg : (Op.setPos k.1 k.2 p nm).guard vm1.ixs.ix = true
         · rw [applyOp_run _ vm1 hg] at h
           cases h
-          exact ⟨rfl, fun u => setPos_proj vm1.ixs.ix k.1 k.2 p nm u, setPos_uids vm1.ixs.ix k.1 k.2 p nm⟩
+          refine ⟨⟨e2, e3⟩, fun u => ?_, ?_⟩
+          · have := setPos_proj vm1.ixs.ix k.1 k.2 p nm u
+            rw [e1] at this
+            rw [← this]
+            show (findInst (step vm1.ixs.ix _) u).map proj = _
+            rw [e1]
+          · have := setPos_uids vm1.ixs.ix k.1 k.2 p nm
+            rw [e1] at this
+            rw [← this]
+            show (step vm1.ixs.ix _).insts.map (·.uid) = _
+            rw [e1]
         · unfold CoreVM.applyOp at h
           simp only [hg, dite_false] at h
           cases h
@@ -390,13 +401,13 @@ theorem endScopeHeads_frame (f : FUid) (h : HUid) (name : String) (pos : Nat) (v
       obtain ⟨b1, b2, b3⟩ := setHeadPos_frame (f, h) (pos + 1) vm1 vm' hro hrun
       have w1 : WF vm1 := hw.of_same a1 a2 a3
       refine ⟨?_, ?_⟩
-      · rw [absVM_of_same ν φ vm1 vm' b2 (by rw [b1]) (by rw [b1])]
+      · rw [absVM_of_same ν φ vm1 vm' b2 b1.1 b1.2]
         exact absVM_of_same ν φ vm vm1 (fun u => by rw [a1]) a2 a3
       · refine ⟨?_, ?_, ?_, ?_⟩
-        · intro k a hk; rw [b1] at hk; exact w1.a k a hk
-        · unfold WFI; rw [b3, b1]; exact w1.i
-        · intro k a hk; rw [b1] at hk; exact w1.g k a hk
-        · intro k x hk; rw [b1] at hk; exact w1.n k x hk
+        · intro k a hk; rw [b1.2] at hk; exact w1.a k a hk
+        · unfold WFI; rw [b3, b1.1]; exact w1.i
+        · intro k a hk; rw [b1.2] at hk; exact w1.g k a hk
+        · intro k x hk; rw [b1.1] at hk; exact w1.n k x hk
 
 
 /-! ### the whole branch -/
@@ -431,7 +442,7 @@ theorem cs_so (t : State) : cs (so t) = cs t := rfl
 /-- **the `EndScope` element IS `Lifetime.endScope`**: if the branch returns normally from a well-formed state in which the scope
     dict of `f` has unique keys (a Python dict), then `Lifetime.endScope` on the abstract state returns normally, the abstract
     post-states agree (up to queue / outgoing events, which `absVM` does not abstract) and the post-state is well-formed.
-    `NameRO`: the name oracle of the next position only reads the state. -/
+    `NameRO`: the name oracle of the next position leaves index, instance table and action table alone. -/
 theorem corevm_endscope_is_op (hν : Function.Injective ν) (hφ : Function.Injective φ) (fuel : Nat) (f : FUid) (h : HUid) (name : String)
     (pos : Nat) (vm vm' : VM) (hw : WF vm)
     (hsn : ∀ x, OMap.lookup f vm.r.fx = some x → (x.scopes.map (·.1)).Nodup)
@@ -546,7 +557,7 @@ theorem corevm_endscope_hierarchy_inv (hν : Function.Injective ν) (hφ : Funct
   rw [ha]
   exact ⟨FlowInv.cs (endScope_flowInv hf fuel (ν f) (ν name) t ht), LinkInv.cs (endScope_linked fuel _ (ν f) (ν name) t hl ht), w'⟩
 
-/-- the name oracle reads the state only when the element at `p` is not a `match` (no event name is evaluated) -/
+/-- `NameRO` holds when the element at `p` is not a `match` (no event name is evaluated) -/
 theorem nameRO_of_not_match (f : FUid) (p : Nat)
     (hnm : ∀ vm cfg vm', cfgOfInst f vm = .ok cfg vm' → ∀ spec b, elemAt cfg p ≠ some (.matchOp spec b)) : NameRO f p := by
   intro hst vm a vm' h
@@ -558,7 +569,7 @@ theorem nameRO_of_not_match (f : FUid) (p : Nat)
     rw [getInst_run_some f vm i hfi] at h
     simp only at h
     split at h
-    · cases h; rfl
+    · cases h; exact ⟨rfl, rfl, rfl⟩
     · simp only [EStateM.bind] at h
       cases hc : cfgOfInst f vm with
       | error e s => rw [hc] at h; cases h
@@ -569,10 +580,10 @@ theorem nameRO_of_not_match (f : FUid) (p : Nat)
         simp only at h
         have hne := hnm _ cfg _ hc
         cases he : elemAt cfg p with
-        | none => rw [he] at h; cases h; rfl
+        | none => rw [he] at h; cases h; exact ⟨rfl, rfl, rfl⟩
         | some pr =>
           rw [he] at h
-          cases pr <;> first | exact absurd he (hne _ _) | (cases h; rfl)
+          cases pr <;> first | exact absurd he (hne _ _) | (cases h; exact ⟨rfl, rfl, rfl⟩)
 
 
 /-! ### non-vacuity: a well-formed VM state whose head stands at an `EndScope` element, and `slideStep` returns normally -/
@@ -586,7 +597,7 @@ def vmEx5 : VM :=
     r := { prog := { flows := [cfgEx5] },
            fx := [("a", { flowId := "a", loopId := none, hierPos := "0", scopes := [("s", ([], []))] })] } }
 
-example : WF vmEx5 := by
+theorem vmEx5_wf : WF vmEx5 := by
   refine ⟨?_, ?_, ?_, ?_⟩
   · intro k a h; simp [vmEx5, OMap.lookup] at h
   · exact ⟨by rfl, by decide⟩
@@ -597,13 +608,13 @@ example : WF vmEx5 := by
     · cases h; decide
     · cases h
 
-example : ∀ x, OMap.lookup "a" vmEx5.r.fx = some x → (x.scopes.map (·.1)).Nodup := by
+theorem vmEx5_nodup : ∀ x, OMap.lookup "a" vmEx5.r.fx = some x → (x.scopes.map (·.1)).Nodup := by
   intro x h
   simp only [vmEx5, OMap.lookup, if_true, Option.some.injEq] at h
   subst h
   decide
 
-example : cfgOfInst "a" vmEx5 = .ok cfgEx5 vmEx5 := by rfl
-example : (match slideStep 3 "a" "h" vmEx5 with | .ok r _ => r == (false, []) | .error _ _ => false) = true := by rfl
+theorem vmEx5_cfg : cfgOfInst "a" vmEx5 = .ok cfgEx5 vmEx5 := by rfl
+theorem vmEx5_slide_ok : (match slideStep 3 "a" "h" vmEx5 with | .ok r _ => r == (false, []) | .error _ _ => false) = true := by rfl
 
 end NemoVerif.Lifetime.Refine
